@@ -493,8 +493,8 @@ def run(ctx):
         lean.leanchecker(ctx, MODULES)
     jobs = [("inputs", ctx.seed, 0, 0, ctx.tier, inputs[i::4]) for i in range(4) if inputs[i::4]]
     nsh = 14
-    per = ctx.scale(300, 1500)
-    deadline = time.time() + max(10.0, ctx.time_left() * 0.55)
+    per = ctx.scale(300, 1000)
+    deadline = time.time() + min(480.0, max(10.0, ctx.time_left() * 0.55))
     jobs += [("gen", ctx.seed, s, per, ctx.tier, None, deadline) for s in range(nsh)]
     shard.run_shards(ctx, worker, jobs)
     # a model/implementation divergence that is not explained by a known defect, and no failing
